@@ -1825,6 +1825,254 @@ Proof.
       destruct (poll_send f w x s2) as [s3 r]. exact A.
 Qed.
 
+(** * batch forms: try_send_batch[_mut], try_recv_batch[_mut] *)
+Lemma skip_nw_In g l e : In e (skip_nw g l) -> In e l.
+Proof.
+  induction l as [|[f w] t IH]; cbn [skip_nw]; intros H; [exact H|].
+  destruct (g f) as [x|]; [destruct (is_waiting (f_state x)); [exact H|]|]; right; apply IH; exact H.
+Qed.
+
+Lemma skip_nw_NoDup g l : NoDup (akeys l) -> NoDup (akeys (skip_nw g l)).
+Proof.
+  unfold akeys. induction l as [|[f w] t IH]; cbn [skip_nw map fst]; intros H; [constructor|].
+  inversion H as [|? ? Hni Hnd]; subst.
+  destruct (g f) as [x|]; [destruct (is_waiting (f_state x)); [exact H|]|]; apply IH; exact Hnd.
+Qed.
+
+Lemma skip_nw_keeps g l f :
+  In f (akeys l) -> In f (akeys (skip_nw g l)) \/ forall x, g f = Some x -> is_waiting (f_state x) = false.
+Proof.
+  unfold akeys. induction l as [|[f1 w] t IH]; cbn [skip_nw map fst In]; intros H; [contradiction|].
+  destruct (g f1) as [x|] eqn:E.
+  - destruct (is_waiting (f_state x)) eqn:Ew; [left; exact H|].
+    destruct H as [<-|H]; [right; intros y Hy; congruence | apply IH; exact H].
+  - destruct H as [<-|H]; [right; intros y Hy; congruence | apply IH; exact H].
+Qed.
+
+(* the receive queue loses entries of futures that are not WAITING (any number of them) *)
+Lemma InvH_arq_drop hand arq' s :
+  InvH hand s -> NoDup (akeys arq') ->
+  (forall e, In e arq' -> In e (arq s)) ->
+  (forall f, In f (akeys (arq s)) -> In f (akeys arq') \/ forall x, getF f s = Some x -> is_waiting (f_state x) = false) ->
+  InvH hand (with_arq arq' s).
+Proof.
+  intros [HD [HW HK]] Hnd Hsub Hkeep. split; [|split].
+  - destruct HD. constructor; unfold nq, ncap, tot, cells in *; st_simpl; assumption.
+  - destruct HW. constructor; unfold any_live in *; st_simpl; try assumption.
+    + intros f1 w1 Hi. apply (w_arq_k f1 w1 (Hsub _ Hi)).
+    + intros f1 y Hy Hrg Hwy. change (getF f1 s = Some y) in Hy. specialize (w_wq f1 y Hy Hrg Hwy).
+      destruct (f_recv y); [|exact w_wq].
+      destruct (Hkeep f1 w_wq) as [Hin|Hnw]; [exact Hin|]. rewrite (Hnw y Hy) in Hwy. discriminate.
+    + intros Hsc f1 w1 y Hi Hy. apply (w_sc0 Hsc f1 w1 y (Hsub _ Hi) Hy).
+    + intros T f1 w1 Hi. apply (w_arq_reg T f1 w1 (Hsub _ Hi)).
+    + intros f1 w1 y Hi Hy. apply (w_arq_st f1 w1 y (Hsub _ Hi) Hy).
+  - destruct HK. constructor; unfold nq, ncap in *; st_simpl; assumption.
+Qed.
+
+Lemma InvH_hand_one_recv hand s :
+  InvH hand s ->
+  InvH hand (hand_one_recv s)
+  /\ (t06 (tn s) = false -> t12 (tn s) = false ->
+      (nq s + 1 <= cnt pi_r (fs (hand_one_recv s)))%nat \/ cnt pw_r (fs (hand_one_recv s)) = 0%nat)
+  /\ frame_r s (hand_one_recv s).
+Proof.
+  intros H. unfold hand_one_recv.
+  set (s1 := with_arq (skip_nw (fun f => getF f s) (arq s)) s).
+  assert (H1 : InvH hand s1).
+  { apply InvH_arq_drop; [exact H | apply skip_nw_NoDup, (w_arq_nd s (proj1 (proj2 H))) | apply skip_nw_In |].
+    intros f Hi. apply (skip_nw_keeps (fun f => getF f s) (arq s) f Hi). }
+  destruct (InvH_wake_one_recv hand s1 H1) as [A B]. split; [exact A|]. split; [exact B|].
+  destruct (wake_one_recv_frame s1) as (F1&F2&F3&F4&F5&F6&F7&F8&F9&F10&F11&F12&F13&F14&F15).
+  unfold frame_r. repeat split; assumption.
+Qed.
+
+Lemma InvH_push_gen v r s :
+  InvH (v :: r) s -> (nq s < ncap s)%nat ->
+  (t06 (tn s) = false -> t12 (tn s) = false ->
+   cnt pw_r (fs s) = 0%nat \/ (nq s + 1 <= cnt pi_r (fs s))%nat) ->
+  InvH r (push v s).
+Proof.
+  intros [HD [HW HK]] Hlt Hr. unfold push. split; [|split].
+  - destruct HD as [A B C]. constructor; unfold nq, ncap, tot, cells in *; st_simpl.
+    + rewrite app_length. cbn [length]. lia.
+    + rewrite B. rewrite app_assoc. reflexivity.
+    + intros u. specialize (C u). rewrite occ_app. cbn [occ] in *. lia.
+  - destruct HW. constructor; unfold getF, getH, any_live in *; st_simpl; assumption.
+  - destruct HK as [K1 K2 K3]. constructor; unfold nq, ncap in *; st_simpl.
+    + assumption.
+    + intros T1 T2. specialize (Hr T1 T2). rewrite app_length. cbn [length]. lia.
+    + intros T. specialize (K3 T). rewrite app_length. cbn [length]. lia.
+Qed.
+
+(* the loop of try_send_batch_core *)
+Definition loop_post (vs : list N) (s s' : st) (un : list N) : Prop :=
+  exists sent, vs = sent ++ un /\ q s' = q s ++ sent /\ acc s' = acc s ++ sent /\ recvd s' = recvd s
+               /\ frame0 s s' /\ asq s' = asq s /\ (un <> [] -> nq s' = ncap s').
+
+Lemma send_loop_inv vs : forall s,
+  InvH vs s -> InvH (snd (send_loop vs s)) (fst (send_loop vs s)) /\ loop_post vs s (fst (send_loop vs s)) (snd (send_loop vs s)).
+Proof.
+  induction vs as [|v r IH]; intros s H; cbn [send_loop].
+  - cbn [fst snd]. split; [exact H|]. exists []. unfold frame0. repeat split; try reflexivity; try (rewrite app_nil_r; reflexivity).
+    intros E; contradiction.
+  - pose proof (d_cap _ _ (proj1 H)) as Hcap.
+    destruct (is_full s) eqn:Ef.
+    + cbn [fst snd]. split; [exact H|]. exists []. unfold frame0. repeat split; try reflexivity; try (rewrite app_nil_r; reflexivity).
+      intros _. apply (is_full_spec s Hcap). exact Ef.
+    + pose proof (is_full_false s Hcap Ef) as Hlt.
+      destruct (InvH_hand_one_recv (v :: r) s H) as (A & B & Fr).
+      destruct Fr as (Fcap & Ffx & Fq & Fsc & Frc & Fasq & Fhs & Fnext & Facc & Frecvd & Fback & Fdropped & Ffreed & Ftn & Fdk).
+      assert (H2 : InvH r (push v (hand_one_recv s))).
+      { apply InvH_push_gen; [exact A | unfold nq, ncap in *; congruence |].
+        unfold nq in *. rewrite Ftn, Fq. intros T1 T2. destruct (B T1 T2); [right|left]; assumption. }
+      destruct (IH _ H2) as [I1 (sent & E1 & E2 & E3 & E4 & E5 & E6 & E7)].
+      split; [exact I1|]. exists (v :: sent).
+      destruct E5 as (G1&G2&G3&G4&G5&G6&G7&G8&G9&G10&G11).
+      set (h1 := hand_one_recv s) in *.
+      change (q (push v h1)) with (q h1 ++ [v]) in E2. change (acc (push v h1)) with (acc h1 ++ [v]) in E3.
+      change (recvd (push v h1)) with (recvd h1) in E4. change (asq (push v h1)) with (asq h1) in E6.
+      change (cap (push v h1)) with (cap h1) in G1. change (fx (push v h1)) with (fx h1) in G2.
+      change (sc (push v h1)) with (sc h1) in G3. change (rc (push v h1)) with (rc h1) in G4.
+      change (hs (push v h1)) with (hs h1) in G5. change (next (push v h1)) with (next h1) in G6.
+      change (back (push v h1)) with (back h1) in G7. change (dropped (push v h1)) with (dropped h1) in G8.
+      change (freed (push v h1)) with (freed h1) in G9. change (tn (push v h1)) with (tn h1) in G10.
+      change (dk (push v h1)) with (dk h1) in G11.
+      split; [cbn [app]; f_equal; exact E1|].
+      split; [rewrite E2, Fq, <- app_assoc; reflexivity|].
+      split; [rewrite E3, Facc, <- app_assoc; reflexivity|].
+      split; [rewrite E4; exact Frecvd|].
+      split; [unfold frame0; repeat split; congruence|].
+      split; [congruence | exact E7].
+Qed.
+
+Lemma occ_seqN v a n : occ v (seqN a n) = if (a <=? v) && (v <? a + N.of_nat n) then 1%nat else 0%nat.
+Proof.
+  revert a. induction n as [|n IH]; intros a; cbn [seqN occ].
+  - destruct (N.leb_spec a v), (N.ltb_spec v (a + N.of_nat 0)); cbn [andb]; try reflexivity. lia.
+  - rewrite IH.
+    destruct (N.eqb_spec v a), (N.leb_spec (a + 1) v), (N.ltb_spec v (a + 1 + N.of_nat n)),
+             (N.leb_spec a v), (N.ltb_spec v (a + N.of_nat (S n))); cbn [andb]; try reflexivity; lia.
+Qed.
+
+Lemma InvH_fresh_n n s : Inv s -> InvH (seqN (next s) n) (with_next (next s + N.of_nat n) s).
+Proof.
+  intros [HD [HW HK]]. split; [|split].
+  - destruct HD as [A B C]. constructor; unfold nq, ncap, tot, cells in *; st_simpl; try assumption.
+    intros v. specialize (C v). cbn [occ] in C. rewrite occ_seqN.
+    destruct (N.leb_spec (next s) v), (N.ltb_spec v (next s + N.of_nat n)), (N.ltb_spec v (next s)); cbn [andb]; lia.
+  - destruct HW. constructor; unfold getF, getH, any_live in *; st_simpl; assumption.
+  - destruct HK. constructor; unfold nq, ncap in *; st_simpl; assumption.
+Qed.
+
+Lemma InvH_give_back_all un s : InvH un s -> Inv (with_back (back s ++ un) s).
+Proof.
+  intros [HD [HW HK]]. split; [|split].
+  - destruct HD as [A B C]. constructor; unfold nq, ncap, tot, cells in *; st_simpl; try assumption.
+    intros u. specialize (C u). rewrite occ_app. cbn [occ]. lia.
+  - destruct HW. constructor; unfold getF, getH, any_live in *; st_simpl; assumption.
+  - destruct HK. constructor; unfold nq, ncap in *; st_simpl; assumption.
+Qed.
+
+Lemma InvH_nil_hand s : InvH [] s -> Inv s.
+Proof. auto. Qed.
+
+Lemma step_try_send_batch s b h n : Inv s -> Inv (fst (step s (TrySendBatch b h n))).
+Proof.
+  intros H0. apply Inv_reset in H0. unfold step. fold (reset s). set (s1 := reset s) in *. clearbody s1.
+  destruct (getH h s1) as [x|]; [|exact H0].
+  destruct (h_live x); cbn [negb]; [|exact H0].
+  destruct (h_tx x); cbn [negb]; [|exact H0].
+  pose proof (InvH_fresh_n (N.to_nat n) s1 H0) as Hf. rewrite N2Nat.id in Hf.
+  set (vs := seqN (next s1) (N.to_nat n)) in *. set (s2 := with_next (next s1 + n) s1) in *.
+  assert (Hfail : forall cl sent un s3, InvH un s3 ->
+            Inv (fst (let s4 := with_back (back s3 ++ un) s3 in
+                      if b then (if cl && (sent =? 0) then ret s4 (RMClosed un) else ret s4 (RMOk sent un))
+                      else ret s4 (RBErr sent cl un)))).
+  { intros cl sent un s3 H3. cbv zeta. destruct b; [destruct (cl && (sent =? 0))|]; cbn [ret fst]; apply InvH_give_back_all; exact H3. }
+  destruct (n =? 0) eqn:En.
+  - cbn [ret fst]. apply N.eqb_eq in En. subst n. cbn in Hf. exact Hf.
+  - destruct (h_closed x); [apply Hfail; exact Hf|].
+    change (rc s2) with (rc s1). destruct (rc s1 =? 0); [apply Hfail; exact Hf|].
+    destruct (send_loop_inv vs s2 Hf) as [A _].
+    destruct (send_loop vs s2) as [s3 un]. cbn [fst snd] in A.
+    destruct un as [|u un']; [destruct b; cbn [ret fst]; exact A|].
+    apply Hfail. exact A.
+Qed.
+
+(** try_recv_batch *)
+Lemma wake_senders_core hand n : forall s,
+  InvD hand s -> InvW s ->
+  let s' := wake_senders n s in
+  InvD hand s' /\ InvW s' /\ frame_s s s' /\
+  cnt pw_r (fs s') = cnt pw_r (fs s) /\ cnt pi_r (fs s') = cnt pi_r (fs s) /\
+  exists b : nat, (b <= n)%nat /\ (cnt pw_s (fs s') + b = cnt pw_s (fs s))%nat
+                  /\ (cnt pi_s (fs s') = cnt pi_s (fs s) + b)%nat
+                  /\ ((b < n)%nat -> cnt pw_s (fs s') = 0%nat).
+Proof.
+  induction n as [|n IH]; intros s HD HW; cbn [wake_senders]; cbv zeta.
+  - split; [exact HD|]. split; [exact HW|]. split; [unfold frame_s; repeat split|].
+    split; [reflexivity|]. split; [reflexivity|]. exists 0%nat. repeat split; lia.
+  - destruct (wake_one_send_core hand s HD HW) as (A & B & (E1 & E2 & b1 & Hb1 & E3 & E4 & E5) & _).
+    destruct (IH (wake_one_send s) A B) as (A2 & B2 & F2 & R1 & R2 & b2 & Hb2 & S1 & S2 & S3). cbv zeta in *.
+    split; [exact A2|]. split; [exact B2|].
+    split.
+    { destruct (wake_one_send_frame s) as (G1&G2&G3&G4&G5&G6&G7&G8&G9&G10&G11&G12&G13&G14&G15).
+      destruct F2 as (K1&K2&K3&K4&K5&K6&K7&K8&K9&K10&K11&K12&K13&K14&K15).
+      unfold frame_s. repeat split; congruence. }
+    split; [congruence|]. split; [congruence|].
+    exists (b1 + b2)%nat. split; [lia|]. split; [lia|]. split; [lia|].
+    intros Hlt. destruct b1 as [|b1].
+    + (* the first attempt found nobody: nobody is waiting, and nobody will be *)
+      specialize (E5 eq_refl). lia.
+    + apply S3. lia.
+Qed.
+
+Lemma occ_firstn_skipn v k (l : list N) : (occ v (firstn k l) + occ v (skipn k l) = occ v l)%nat.
+Proof. rewrite <- occ_app. rewrite firstn_skipn. reflexivity. Qed.
+
+Lemma drain_core hand k s :
+  InvD hand s -> InvW s -> InvD hand (drain k s) /\ InvW (drain k s).
+Proof.
+  intros HD HW. unfold drain. split; [|apply InvW_qrecvd; exact HW].
+  destruct HD as [A B C]. constructor; unfold nq, ncap, tot, cells in *; st_simpl.
+  - rewrite skipn_length. lia.
+  - rewrite B. rewrite <- app_assoc. rewrite firstn_skipn. reflexivity.
+  - intros u. specialize (C u). rewrite occ_app. pose proof (occ_firstn_skipn u k (q s)). lia.
+Qed.
+
+Lemma step_try_recv_batch s b h m : Inv s -> Inv (fst (step s (TryRecvBatch b h m))).
+Proof.
+  intros H0. apply Inv_reset in H0. unfold step. fold (reset s). set (s1 := reset s) in *. clearbody s1.
+  destruct (getH h s1) as [x|]; [|exact H0].
+  destruct (h_live x); cbn [negb]; [|exact H0].
+  destruct (h_tx x); [exact H0|].
+  destruct (m =? 0); [destruct b; exact H0|].
+  destruct (h_closed x); [exact H0|].
+  destruct (Nat.min (N.to_nat m) (length (q s1))) as [|k'] eqn:Ek; [destruct (sc s1 =? 0); exact H0|].
+  set (k := S k') in *. cbn [ret fst].
+  cbv zeta.
+  destruct H0 as [HD [HW HK]].
+  destruct (drain_core [] k s1 HD HW) as [HD1 HW1].
+  destruct (wake_senders_core [] (N.to_nat m) (drain k s1) HD1 HW1) as (HD2 & HW2 & Fr & R1 & R2 & bb & Hb & S1 & S2 & S3).
+  cbv zeta in *. set (s3 := wake_senders (N.to_nat m) (drain k s1)) in *.
+  destruct Fr as (Fcap & Ffx & Fq & Fsc & Frc & Farq & Fhs & Fnext & Facc & Frecvd & Fback & Fdropped & Ffreed & Ftn & Fdk).
+  split; [exact HD2|]. split; [exact HW2|].
+  destruct HK as [K1 K2 K3]. fold (nq s1) in K2, K3. fold (ncap s1) in K3.
+  assert (Hk1 : (k <= N.to_nat m)%nat) by (subst k; lia).
+  assert (Hk2 : (k <= nq s1)%nat) by (unfold nq; subst k; lia).
+  assert (Hq3 : nq s3 = (nq s1 - k)%nat).
+  { unfold nq. rewrite Fq. unfold drain. st_simpl. apply skipn_length. }
+  assert (Hc3 : ncap s3 = ncap s1) by (unfold ncap; rewrite Fcap; reflexivity).
+  apply InvK_intro.
+  - rewrite Ftn, Fhs, Fsc, Frc. exact K1.
+  - rewrite Ftn. intros T1 T2. specialize (K2 T1 T2).
+    change (fs (drain k s1)) with (fs s1) in R1, R2. rewrite R1, R2, Hq3. clear - K2. lia.
+  - rewrite Ftn. intros T. specialize (K3 T).
+    change (fs (drain k s1)) with (fs s1) in S1, S2. rewrite Hq3, Hc3.
+    destruct (Nat.lt_ge_cases bb (N.to_nat m)) as [Hlt|Hge].
+    + left. apply S3. exact Hlt.
+    + clear - K3 S1 S2 Hge Hk1 Hk2. lia.
+Qed.
 (** * every step preserves the invariant; the initial state satisfies it *)
 Theorem Inv_step s o : Inv s -> Inv (fst (step s o)).
 Proof.
@@ -1843,6 +2091,8 @@ Proof.
   - apply step_mkrecv.
   - apply step_poll.
   - apply step_dropf.
+  - apply step_try_send_batch.
+  - apply step_try_recv_batch.
 Qed.
 
 Lemma Inv_init c a f : Inv (init c a f).
@@ -1874,3 +2124,4 @@ Qed.
 
 Theorem Inv_reachable c a f os : Inv (state_after c a f os).
 Proof. unfold state_after. apply Inv_run. apply Inv_init. Qed.
+
